@@ -687,6 +687,7 @@ fn cmd_c10_probe() -> (u64, Vec<String>) {
         "```scrut\n$ echo a\na\n```\n\n```scrut\n# no command\n```\ntail\n",
         "```scrut\n$ echo a\na\n```\n\n```scrut\n$ echo b\n",
         "---\nfoo: 1\n\n```scrut\n$ echo a\na\n```\n",
+        "---\n---\n\n```scrut\n$ echo a\na\n```\n",
     ];
     let mut out = vec![];
     std::panic::set_hook(Box::new(|_| {}));
@@ -708,6 +709,93 @@ fn cmd_c10_probe() -> (u64, Vec<String>) {
         out.push(format!("{{\"doc\":{},\"result\":{}}}", jstr(d), jstr(&txt)));
     }
     (docs.len() as u64, out)
+}
+
+/// BOUNDED: every document of up to `n` lines over a small set of line shapes: when it parses, `update` with all-passing outcomes
+/// neither panics nor fails, is idempotent, keeps the lines outside scrut blocks in order, and the result parses to the same commands
+fn cmd_c10(n: usize) -> (u64, Vec<String>) {
+    use scrut::generators::generator::UpdateGenerator;
+    use scrut::generators::markdown::MarkdownUpdateGenerator;
+    use scrut::outcome::Outcome;
+    use scrut::parsers::markdown::{MarkdownParser, DEFAULT_MARKDOWN_LANGUAGES};
+    use scrut::parsers::parser::{Parser, ParserType};
+    let shapes = ["text", "", "# h", "---", "```", "```scrut", "```sh", "$ echo a", "a", "# c", "````scrut", "````", "```scrut {timeout: 3s}"];
+    let maker = std::sync::Arc::new(ExpectationMaker::new(RuleRegistry::default()));
+    let parser = MarkdownParser::new(maker, DEFAULT_MARKDOWN_LANGUAGES, None);
+    let upd = |doc: &str| -> Result<Option<(usize, Vec<String>, String)>, String> {
+        // Ok(None): does not parse
+        let tcs = match std::panic::catch_unwind(std::panic::AssertUnwindSafe(|| parser.parse(doc))) {
+            Err(_) => return Err("parse panics".into()),
+            Ok(Err(_)) => return Ok(None),
+            Ok(Ok((_, tcs))) => tcs,
+        };
+        let outcomes: Vec<Outcome> = tcs.iter().map(|t| Outcome { location: None, output: Output { stderr: "".into(), stdout: "a\n".into(), exit_code: ExitStatus::Code(0) },
+            testcase: t.clone(), format: ParserType::Markdown, escaping: Escaper::default(), result: Ok(()) }).collect();
+        let refs: Vec<&Outcome> = outcomes.iter().collect();
+        match std::panic::catch_unwind(std::panic::AssertUnwindSafe(|| MarkdownUpdateGenerator::default().generate_update(doc, &refs))) {
+            Err(_) => Err("update panics".into()),
+            Ok(Err(e)) => Err(format!("update fails: {e}")),
+            Ok(Ok(u)) => Ok(Some((tcs.len(), tcs.iter().map(|t| t.shell_expression.clone()).collect(), u))),
+        }
+    };
+    // the lines outside scrut blocks, by an independent scan (fence = at least three backticks at column 0; closing = starts with the opening run)
+    let outside = |doc: &str| -> Vec<String> {
+        let mut out = vec![];
+        let mut lines = doc.lines();
+        while let Some(l) = lines.next() {
+            let t = l.chars().take_while(|c| *c == '`').count();
+            if t >= 3 && l[t..].trim_end().split('{').next().unwrap_or("").trim_end() == "scrut" {
+                let fence = &l[..t];
+                for m in lines.by_ref() { if m.starts_with(fence) { break; } }
+            } else if t >= 3 && !(l.len() > t) && l != "```" { out.push(l.to_string()); }
+            else if t >= 3 {
+                out.push(l.to_string());
+                let fence = &l[..t];
+                for m in lines.by_ref() { out.push(m.to_string()); if m.starts_with(fence) { break; } }
+            } else { out.push(l.to_string()); }
+        }
+        out
+    };
+    std::panic::set_hook(Box::new(|_| {}));
+    let mut cases = 0u64;
+    let mut bad = vec![];
+    // documents = up to n pieces (whole constructs), and up to min(n, 4) single lines
+    let pieces = ["text\n", "\n", "# h\n", "---\n---\n", "---\nfoo: 1\n---\n", "```scrut\n$ echo a\na\n```\n", "```scrut\n# c\n$ echo a\n```\n", "```scrut\n# c\n```\n",
+        "```scrut\n```\n", "```sh\nx\n```\n", "````scrut {timeout: 3s}\n$ echo a\n```\na\n````\n", "```\n", "```scrut\n$ echo b\n> c\nb\n[1]\n```\n", "```scrut\nnot a command\n```\n"];
+    let line_shapes: Vec<String> = shapes.iter().map(|l| format!("{l}\n")).collect();
+    for (alphabet, bound) in [(pieces.iter().map(|s| s.to_string()).collect::<Vec<_>>(), n), (line_shapes, n.min(4))] {
+        let mut idx: Vec<usize> = vec![];
+        loop {
+            let mut i = idx.len();
+            loop {
+                if i == 0 { idx = vec![0; idx.len() + 1]; break; }
+                i -= 1;
+                if idx[i] + 1 < alphabet.len() { idx[i] += 1; for j in i + 1..idx.len() { idx[j] = 0; } break; }
+            }
+            if idx.len() > bound { break; }
+            let doc: String = idx.iter().map(|&i| alphabet[i].as_str()).collect();
+            cases += 1;
+            let why = match upd(&doc) {
+                Err(w) => Some(w),
+                Ok(None) => None,
+                Ok(Some((k, cmds, u))) => match upd(&u) {
+                    Err(w) => Some(format!("updated document: {w}")),
+                    Ok(None) => Some(format!("updated document {u:?} does not parse")),
+                    Ok(Some((k2, cmds2, u2))) => {
+                        if k2 != k || cmds2 != cmds { Some(format!("updated document {u:?} parses to {k2} test cases {cmds2:?}, the original to {k} {cmds:?}")) }
+                        else if u2 != u { Some(format!("update is not idempotent: {u:?} -> {u2:?}")) }
+                        else if outside(&u) != outside(&doc) { Some(format!("lines outside scrut blocks changed: {:?} -> {:?}", outside(&doc), outside(&u))) }
+                        else { None }
+                    }
+                },
+            };
+            if let Some(w) = why {
+                bad.push(format!("{{\"why\":{},\"doc\":{}}}", jstr(&format!("C10: {w}")), jstr(&doc)));
+                if bad.len() > 10 { break; }
+            }
+        }
+    }
+    (cases, bad)
 }
 
 fn cmd_cram_probe() -> (u64, Vec<String>) {
@@ -764,6 +852,7 @@ fn main() {
         "markdown" => cmd_markdown(),
         "cram-probe" => cmd_cram_probe(),
         "c10-probe" => cmd_c10_probe(),
+        "c10" => cmd_c10(args.get(2).and_then(|s| s.parse().ok()).unwrap_or(4)),
         "c08" => cmd_c08(args.get(2).and_then(|s| s.parse().ok()).unwrap_or(5)),
         "validate" => cmd_validate(),
         _ => {
